@@ -61,7 +61,8 @@ STUBS = ['coroutines driven with send(None)', 'sessions attached directly',
 OUTSIDE = ['maildir UID assignment across restart and crash points (C15)', 'more than 3 concurrent additions']
 
 _g: dict = {}
-OPS = ['append', 'expunge_highest', 'copy_self', 'copy_other', 'move_other', 'rename', 'status', 'append_other']
+OPS = ['append', 'expunge_highest', 'copy_self', 'copy_other', 'move_other', 'rename', 'status', 'append_other',
+       'copy2_other', 'move2_other']
 
 
 def setup() -> None:
@@ -75,7 +76,31 @@ def setup() -> None:
     _g.update(locals())
 
 
+def _record_copyuid(g):
+    """ghost: remember the (source, destination) pairs the session layer hands to CopyUid"""
+    import sys
+    mod = sys.modules['pymap.backend.session']
+    real = g['CopyUid']
+    rec = {'pairs': None}
+
+    class RecCopyUid(real):
+        def __init__(self, validity, uids):
+            uids = list(uids)
+            rec['pairs'] = uids
+            super().__init__(validity, uids)
+    mod.CopyUid = RecCopyUid
+    return rec, lambda: setattr(mod, 'CopyUid', real)
+
+
 def program(g, sim, base, m, script, check):
+    rec, restore = _record_copyuid(g)
+    try:
+        return _program(g, sim, base, m, script, check, rec)
+    finally:
+        restore()
+
+
+def _program(g, sim, base, m, script, check, rec):
     w = sim.World(g, 1, base_uid=base, check=check)
     Deleted = g['Deleted']
     ghost = {}         # mailbox object id -> list of every UID ever assigned there
@@ -140,6 +165,20 @@ def program(g, sim, base, m, script, check):
             if cond != 'OK':
                 return '%s answered %s' % (op, cond)
             assigned(dest, [u for u, _, _ in w.dump(dest)][len(before):])
+        elif op in ('copy2_other', 'move2_other'):
+            dest = other
+            before = [u for u, _, _ in w.dump(dest)]
+            rec['pairs'] = None
+            cond, resp = w.copy(0, [a[0], a[1]], dest, move=(op == 'move2_other'))
+            if cond != 'OK':
+                return '%s answered %s' % (op, cond)
+            assigned(dest, [u for u, _, _ in w.dump(dest)][len(before):])
+            pairs = rec['pairs'] or []
+            if len(pairs) == 2:
+                # the client reads COPYUID as two ascending sets and pairs them position by position (the text is
+                # checked by copyuid_pairs): the smaller source must belong to the smaller destination
+                (s1, d1), (s2, d2) = pairs
+                check((s1 < s2) == (d1 < d2), 'COPYUID pairs a source UID with the copy of another message')
         elif op == 'rename':
             new = 'Other2' if other == 'Other' else 'Other'
             obj = w.mbx(other)
@@ -190,10 +229,14 @@ def _h_history(m, d, ops):
             a = None
             if op in ('copy_self', 'copy_other', 'move_other'):
                 a = eng.fresh_int('a%d' % t, 1, m + d + 1, cls=SymUid)
+            elif op in ('copy2_other', 'move2_other'):
+                # two numbers in the order the client writes them (ascending or not)
+                a = (eng.fresh_int('a%d' % t, 1, m + d + 1, cls=SymUid), eng.fresh_int('b%d' % t, 1, m + d + 1, cls=SymUid))
             script.append((op, a))
         obligations = []
         wit = lambda mdl: {'base': base.eval(mdl), 'm': m,  # noqa: E731
-                           'script': [[op, None if a is None else a.eval(mdl)] for op, a in script]}
+                           'script': [[op, None if a is None else ([x.eval(mdl) for x in a] if isinstance(a, tuple) else a.eval(mdl))]
+                                      for op, a in script]}
         err = program(_g, _g['_sim'], base, m, script, lambda c, msg='': obligations.append(B(c)))
         if err is not None:
             return Outcome(False, witness=wit, info=err)
@@ -361,7 +404,7 @@ def replay(harness, w):
         if not c:
             bad.append(msg or 'obligation failed')
     if harness == 'history':
-        err = program(g, _sim, w['base'], w['m'], [tuple(x) for x in w['script']], check)
+        err = program(g, _sim, w['base'], w['m'], [(op, tuple(a) if isinstance(a, list) else a) for op, a in w['script']], check)
         if err:
             bad.append(err)
     elif harness == 'mdwriters':
